@@ -22,6 +22,7 @@ var table = map[string]entry{
 	"C04": {"exploration", checks.C04},
 	"C05": {"exploration", checks.C05},
 	"C06": {"exploration", checks.C06},
+	"C07": {"exploration", checks.C07},
 	"C08": {"exploration", checks.C08},
 	"C09": {"exploration", checks.C09},
 	"C10": {"exploration", checks.C10},
@@ -29,6 +30,7 @@ var table = map[string]entry{
 	"C12": {"exploration", checks.C12},
 	"C13": {"exploration", checks.C13},
 	"C14": {"exploration", checks.C14},
+	"C15": {"exploration", checks.C15},
 	"C16": {"exploration", checks.C16},
 	"C17": {"exploration", checks.C17},
 }
